@@ -590,16 +590,37 @@ func c01Err(w *World, r *Report, un, ma *ssa.Function) {
 	// encode: Reason as element name in the stanzas namespace, Text as <text> with CharData
 	var encNames []string
 	okText := false
-	allInstrs(ma, func(in ssa.Instruction) {
+	// (the tokens may be written by a helper the encoder calls for each child: its parameters stand for every
+	// caller's arguments)
+	allInstrsH(ma, func(in ssa.Instruction) {
 		al, ok := in.(*ssa.Alloc)
 		if ok && strings.HasSuffix(al.Type().String(), "encoding/xml.Name") {
 			fields, _ := complitFields(al)
-			sp, _ := stringConst(fields["Space"])
+			sp, _ := stringConst(origin(fields["Space"]))
 			encNames = append(encNames, sp+" "+nf(fields["Local"]))
 		}
 		if c, ok := in.(*ssa.Call); ok && w.callKey(c) == "encoding/xml.Encoder.EncodeToken" {
-			if mi, ok := c.Call.Args[1].(*ssa.MakeInterface); ok && strings.HasSuffix(mi.X.Type().String(), "xml.CharData") && strings.HasSuffix(nf(mi.X), ".Text") {
-				okText = true
+			if mi, ok := c.Call.Args[1].(*ssa.MakeInterface); ok && strings.HasSuffix(mi.X.Type().String(), "xml.CharData") {
+				if strings.HasSuffix(nf(mi.X), ".Text") {
+					okText = true
+				}
+				v := mi.X
+				for k := 0; k < 3; k++ {
+					switch y := v.(type) {
+					case *ssa.Convert:
+						v = y.X
+						continue
+					case *ssa.ChangeType:
+						v = y.X
+						continue
+					}
+					break
+				}
+				for _, o := range originsAll(v) {
+					if strings.HasSuffix(nf(o), ".Text") {
+						okText = true
+					}
+				}
 			}
 		}
 	})
